@@ -59,6 +59,26 @@ structure Inv (s : St) : Prop where
   guardGood : ∀ g, s.guard = some g → Good s g ∧ (g.value = 0 ∨ g.value = 1)
   ign : s.ignoreErrors = true ↔ ∃ g, s.guard = some g ∧ g.value = 0
 
+/-- The guard part of `Inv` for a frame saved by `add_guard` (what `restore_guard` will put back):
+`ONE` is the saved guard (or `ONE_SAFE`), the saved guard is coherent and 0/1-valued, and error
+suppression was on exactly when the saved guard was 0.  Monotone along state extension. -/
+structure BakOk (s : St) (b : GuardBak) : Prop where
+  oneNone : b.guard = none → b.one = oneSafe
+  oneSome : ∀ g, b.guard = some g → b.one = g
+  guardGood : ∀ g, b.guard = some g → Good s g ∧ (g.value = 0 ∨ g.value = 1)
+  ign : b.ignoreErrors = true ↔ ∃ g, b.guard = some g ∧ g.value = 0
+
+/-- The part of the invariant that survives user-selected ignore-errors mode (`set ign`): the
+objects the tracer itself keeps alive (`LinComb.ONE`, the guard) are coherent.  Enough for C04. -/
+structure Wk (s : St) : Prop where
+  one : Good s s.one
+  guard : ∀ g, s.guard = some g → Good s g
+
+/-- `Wk` for a saved frame -/
+structure BakWk (s : St) (b : GuardBak) : Prop where
+  one : Good s b.one
+  guard : ∀ g, b.guard = some g → Good s g
+
 end Pysnark
 
 namespace Pysnark
@@ -75,14 +95,19 @@ def guardsFlat : List Instr → Bool → Bool
   | .gleave :: is, inG => inG && guardsFlat is false
   | _ :: is, inG => guardsFlat is inG
 
-/-- *Excluded, and why.*  `set ign`: the property is about runs in which the user has not switched
-error checking off.  Nested guarded regions: the effective guard `outer & inner` is computed by the
-bitwise-AND gadget, whose value analysis is not done yet (composition missing, not known false).
-`/` inside a program that also has a guarded region: under a false guard `LinComb / int` on a
-non-multiple returns value 0 with wire expression `x·c⁻¹` (finding C04-div-const). -/
+/-- The fragment for which the invariant was proved FIRST (kept because lemmas of other properties
+are stated over it).  It is no longer a limit of C01/C04: `run_inv_full` (Lemmas/InvRun.lean)
+proves the invariant for every program without `set ign`, at any nesting depth of guarded regions
+and with `/` anywhere (the effective guard `outer & inner` of a nested region is analysed in
+Lemmas/InvNest.lean; the error-suppressed arm of `LinComb / int` is coherent since the repair
+recorded as C04-div-const).  `set ign`: C01 is about runs in which the user has not switched error
+checking off; coherence (C04) holds in that mode as well (`run_coh`, Lemmas/CohRun.lean). -/
 def Fragment (prog : List Instr) : Prop :=
   (∀ i ∈ prog, i.isSetIgn = false) ∧ guardsFlat prog false = true ∧
   ((∃ i ∈ prog, i.isGenter = true) → ∀ i ∈ prog, i.isTruediv = false)
+
+/-- the only restriction of C01: the user does not switch error checking off -/
+def NoSetIgn (prog : List Instr) : Prop := ∀ i ∈ prog, i.isSetIgn = false
 
 /-- the initial tracer state for modulus `p` -/
 def St.init (p : Int) (bl res : Nat) : St := { p := p, bitlength := bl, resolution := res }
